@@ -53,6 +53,9 @@ func genMemo(r *rng) string {
 	nG := 2 + r.intn(7)
 	nUses := 3 + r.intn(12)
 	nKeys := 1 + r.intn(4)
+	if mode == 3 {
+		nKeys = 2 + r.intn(4) // up to five kinds of interface values
+	}
 	var sb strings.Builder
 	fmt.Fprintf(&sb, "M %d %d %d %d %d", r.next()%1000000, mode, nChains, nG, nUses)
 	for i := 0; i < nG*nUses; i++ {
@@ -64,6 +67,13 @@ func genMemo(r *rng) string {
 type memoKey struct {
 	A any
 	B T0
+}
+
+// a comparable struct with an interface-typed field holding a comparable value: reached through the
+// interface-typed input, it must still be accepted as a cache key
+type memoNested struct {
+	N int
+	X any
 }
 
 func runMemo(line string) string {
@@ -103,8 +113,10 @@ func runMemo(line string) string {
 				return "", T0{1, 1}
 			case 2:
 				return 0, T0{1, 1}
-			default:
+			case 3:
 				return T2{7, 7}, T0{1, 1}
+			default:
+				return memoNested{7, "x"}, T0{1, 1}
 			}
 		}
 		return k, T0{1, k + 1}
